@@ -2,7 +2,9 @@
    every interleaving of any number of threads.
    A schedule is an arbitrary list of atomic steps (Lookup t k = first critical section,
    Generate t = unlocked plan generation, Insert t = second critical section) of arbitrary
-   threads; the Mutex makes every execution of the Rust code one such schedule.  Plan generation
+   threads, and Abort t = the request of thread t dies between its critical sections -- a panic in the
+   unlocked generation, e.g. a symbol count the library refuses); the Mutex makes every execution of the
+   Rust code one such schedule.  Plan generation
    is an arbitrary function [gen] of the symbol count.  Since every plan handed out for k is
    [gen k] (C17_transparent), the encoder built from it is the one a single thread builds without
    caching, which uses [gen k] too.
@@ -79,6 +81,19 @@ Section C17.
     intros pre t k s1 s2 st. apply (request_completes plan gen capacity cap_pos).
     exact (invariant_reachable plan gen capacity cap_pos pre).
   Qed.
+
+  (* a request that dies between its critical sections (Abort) changes nothing for anybody else: the cache
+     keeps its contents and order, nothing is returned, every other thread keeps its program counter, and
+     the dead request's thread is Idle again.  With C17_invariant / C17_transparent / C17_request_completes
+     (whose schedules and interleaved steps s1, s2 range over Abort steps too) this is: a refused or crashed
+     request never disturbs the others. *)
+  Theorem C17_abort_harmless : forall st t,
+    let st' := fst (exec (Abort t) st) in
+    plans st' = plans st /\ order st' = order st /\
+    snd (exec (Abort t) st) = [] /\
+    get_pc t (threads st') = Idle /\
+    (forall t', t' <> t -> get_pc t' (threads st') = get_pc t' (threads st)).
+  Proof. exact (abort_harmless plan gen capacity). Qed.
 End C17.
 
 (* instantiation with the crate's constant *)
@@ -128,6 +143,14 @@ Example C17_example_rerequest_evicted :
   snd (run ex_gen cap (request 0 70) st) = [Ret 0 70 1070].
 Proof. vm_compute. repeat split; reflexivity. Qed.
 
+(* (d) thread 0's request for 60000 dies after its miss (the generation panics); thread 1, which missed the same
+   key concurrently, and thread 2 are served as if nothing had happened; thread 0 can ask again *)
+Example C17_example_abort :
+  run ex_gen 64 [Lookup 0 60000; Lookup 1 5; Abort 0; Generate 1; Lookup 2 5; Insert 1; Generate 2; Insert 2;
+                 Lookup 0 5] init
+  = (mkSys [(5, 1005)] [5] [(0%nat, Idle); (1%nat, Idle); (2%nat, Idle)], [Ret 1 5 1005; Ret 2 5 1005; Ret 0 5 1005]).
+Proof. vm_compute. reflexivity. Qed.
+
 (* hypotheses of C17_fifo_eviction are satisfiable: capacity 2, full cache, fresh key *)
 Example C17_example_fifo_hyps :
   let st := fst (run ex_gen 2 (request 0 10 ++ request 0 20 ++ [Lookup 1 30; Generate 1]) init) in
@@ -155,3 +178,4 @@ Print Assumptions C17_bound.
 Print Assumptions C17_fifo_eviction.
 Print Assumptions C17_no_eviction_below_capacity.
 Print Assumptions C17_request_completes.
+Print Assumptions C17_abort_harmless.
